@@ -6,10 +6,8 @@ cd /repo || exit 3
 if ! git diff --quiet; then echo "/repo is dirty; refusing"; exit 3; fi
 git apply "$P" || { echo "patch does not apply"; exit 3; }
 cd /verif
-OUT=$(./check "$ID" --tier "$TIER" 2>&1); RC=$?
+OUT=$(VERIF_EVIDENCE_DIR=/tmp/seed_evidence ./check "$ID" --tier "$TIER" 2>&1); RC=$?
 echo "$OUT" | grep -E "^(VIOLATION|KNOWN-FINDING|INCONCLUSIVE|\[C)" | head -8 | cut -c1-400
 echo "exit=$RC"
 git -C /repo checkout -- . 
-# restore evidence from git if tracked
-git -C /verif checkout -- evidence 2>/dev/null
 exit $RC
